@@ -8,19 +8,22 @@ Record obs := mkObs {
   ob_err : bool;              (* Take: error returned *)
   ob_fetched : bool;          (* Take: the fetch function ran *)
   ob_keys : list nat;         (* keys of the data map after the call *)
-  ob_timers : list nat        (* keys with a pending timer in the wheel's index after the call *)
+  ob_timers : list nat;       (* keys with a pending timer in the wheel's index after the call *)
+  ob_nkeys : nat;             (* size of the data map *)
+  ob_ntimers : nat            (* size of the wheel's timer index *)
 }.
 
 (* a call, or a bulk of calls observed only at its end (the driver issues them back to back):
    XFill from n v j  = Set(k_from, v) ... Set(k_{from+n-1}, v), every one jittered to j;
-   XChurn from n v j = Set(k_i, v); Del(k_i) for i = from .. from+n-1 (timer index churn: n timer removals) *)
+   XChurn from n v j = n times Set(k, v); Del(k) with k cycling over k_from .. k_{from+15} (timer index churn:
+                       n timer removals) *)
 Inductive xop := XO (o : cop) | XFill (from n v : nat) (j : Z) | XChurn (from n v : nat) (j : Z).
 
 Definition bulk_ops (x : xop) : list cop :=
   match x with
   | XO o => [o]
   | XFill from n v j => map (fun i => KSet (from + i) v j) (seq 0 n)
-  | XChurn from n v j => flat_map (fun i => [KSet (from + i) v j; KDel (from + i)]) (seq 0 n)
+  | XChurn from n v j => flat_map (fun i => [KSet (from + i mod 16) v j; KDel (from + i mod 16)]) (seq 0 n)
   end.
 
 Record ccase := mkcase {
@@ -29,6 +32,7 @@ Record ccase := mkcase {
   c_phase : nat;              (* wheel ticks before the first call *)
   c_ivl : Z;                  (* interval of the wheel the cache runs on, nanoseconds (NewCache: one second) *)
   c_hung : bool;              (* the driver gave up waiting: the cache or its wheel got stuck *)
+  c_hide : nat;               (* > 0: ob_keys / ob_timers list only the keys below it (big fills); the sizes count all *)
   c_ops : list xop;
   c_obs : list obs
 }.
@@ -44,10 +48,22 @@ Fixpoint perm_b (l1 l2 : list nat) : bool :=
   | x :: r => match remove1 x l2 with Some l2' => perm_b r l2' | None => false end
   end.
 
+Definition shown (hide : nat) (l : list nat) : list nat := if hide =? 0 then l else filter (fun k => k <? hide) l.
+
 Definition is_take (o : cop) : bool := match o with KTake _ _ _ => true | _ => false end.
 
 (* ---- model agreement ---- *)
-Fixpoint model_run (c : wheel_cache) (ops : list xop) (os : list obs) : bool :=
+(* a big churn (more than 64 pairs) of keys that are not stored is not replayed on the wheel model: Set k; Del k
+   of an absent key with no limit leaves the data map, the LRU and the timer index as they were (the heap gets a
+   tombstone that is dropped unseen when its slot is scanned); small churns ARE replayed, which checks exactly that *)
+Definition churn_shortcut (limit : Z) (c : wheel_cache) (x : xop) : bool :=
+  match x with
+  | XChurn from n _ _ => (64 <? n) && (limit <=? 0)%Z &&
+                         forallb (fun i => match alookup Nat.eqb (from + i) (c_data c) with None => true | Some _ => false end) (seq 0 16)
+  | _ => false
+  end.
+
+Fixpoint model_run (hide : nat) (limit : Z) (c : wheel_cache) (ops : list xop) (os : list obs) : bool :=
   match ops, os with
   | [], [] => true
   | XO o :: ops', ob :: os' =>
@@ -56,14 +72,16 @@ Fixpoint model_run (c : wheel_cache) (ops : list xop) (os : list obs) : bool :=
           option_eqb Nat.eqb r (ob_val ob) &&
           Bool.eqb (ob_err ob) (is_take o && match r with None => true | Some _ => false end) &&
           Bool.eqb (ob_fetched ob) fetched &&
-          perm_b (map fst (c_data c')) (ob_keys ob) &&
-          perm_b (map fst (C10.Model.timers (c_ts c'))) (ob_timers ob) && model_run c' ops' os'
+          perm_b (shown hide (map fst (c_data c'))) (ob_keys ob) && (length (c_data c') =? ob_nkeys ob) &&
+          perm_b (shown hide (map fst (C10.Model.timers (c_ts c')))) (ob_timers ob) &&
+          (length (C10.Model.timers (c_ts c')) =? ob_ntimers ob) && model_run hide limit c' ops' os'
       end
   | x :: ops', ob :: os' =>      (* bulk: only the state at its end is observed *)
-      let c' := fold_left (fun c o => fst (fst (wstep c o))) (bulk_ops x) c in
+      let c' := if churn_shortcut limit c x then c else fold_left (fun c o => fst (fst (wstep c o))) (bulk_ops x) c in
       option_eqb Nat.eqb None (ob_val ob) && negb (ob_err ob) && negb (ob_fetched ob) &&
-      perm_b (map fst (c_data c')) (ob_keys ob) &&
-      perm_b (map fst (C10.Model.timers (c_ts c'))) (ob_timers ob) && model_run c' ops' os'
+      perm_b (shown hide (map fst (c_data c'))) (ob_keys ob) && (length (c_data c') =? ob_nkeys ob) &&
+      perm_b (shown hide (map fst (C10.Model.timers (c_ts c')))) (ob_timers ob) &&
+      (length (C10.Model.timers (c_ts c')) =? ob_ntimers ob) && model_run hide limit c' ops' os'
   | _, _ => false
   end.
 
@@ -71,13 +89,14 @@ Fixpoint iter {A} (n : nat) (f : A -> A) (a : A) : A := match n with O => a | S 
 
 Definition cache_model_ok (c : ccase) : bool :=
   negb (c_hung c) && (0 <? c_ivl c)%Z &&
-  model_run (iter (c_phase c) (ctick C10.Model.step_ok) (wnew_at (Z.to_pos (c_ivl c)) (c_exp c) (c_limit c))) (c_ops c) (c_obs c).
+  model_run (c_hide c) (c_limit c) (iter (c_phase c) (ctick C10.Model.step_ok) (wnew_at (Z.to_pos (c_ivl c)) (c_exp c) (c_limit c))) (c_ops c) (c_obs c).
 
 (* ---- the property on the observations: replayed on the reference cache of Spec.v ---- *)
 (* the stored keys are the reference's, within the limit, and every stored entry has a pending timer
    (an entry whose SetTimer/MoveTimer was rejected or lost would never expire) *)
-Definition keys_ok (limit : Z) (r : list rentry) (ob : obs) : bool :=
-  perm_b (map rkey r) (ob_keys ob) && forallb (fun k => existsb (Nat.eqb k) (ob_timers ob)) (ob_keys ob) && ((limit <=? 0)%Z || (length (ob_keys ob) <=? Z.to_nat limit)).
+Definition keys_ok (hide : nat) (limit : Z) (r : list rentry) (ob : obs) : bool :=
+  perm_b (shown hide (map rkey r)) (ob_keys ob) && (length r =? ob_nkeys ob) &&
+  forallb (fun k => existsb (Nat.eqb k) (ob_timers ob)) (ob_keys ob) && (ob_nkeys ob <=? ob_ntimers ob) && ((limit <=? 0)%Z || (ob_nkeys ob <=? Z.to_nat limit)).
 
 (* the reference after a bulk of Sets / Set-Del pairs (default expiry) *)
 Definition ref_bulk (limit dflt : Z) (T : nat) (r : list rentry) (x : xop) : list rentry :=
@@ -87,60 +106,63 @@ Definition ref_bulk (limit dflt : Z) (T : nat) (r : list rentry) (x : xop) : lis
                         | _ => r
                         end) (bulk_ops x) r.
 
-Fixpoint spec_run (I limit dflt : Z) (T : nat) (r : list rentry) (ops : list xop) (os : list obs) : bool :=
+Fixpoint spec_run (hide : nat) (I limit dflt : Z) (T : nat) (r : list rentry) (ops : list xop) (os : list obs) : bool :=
   match ops, os with
   | [], [] => true
   | XFill a b c d :: ops', ob :: os' =>
       if negb (in_scope I dflt) then true else
-      let r' := ref_bulk limit dflt T r (XFill a b c d) in keys_ok limit r' ob && spec_run I limit dflt T r' ops' os'
+      let r' := ref_bulk limit dflt T r (XFill a b c d) in keys_ok hide limit r' ob && spec_run hide I limit dflt T r' ops' os'
   | XChurn a b c d :: ops', ob :: os' =>
       if negb (in_scope I dflt) then true else
-      let r' := ref_bulk limit dflt T r (XChurn a b c d) in keys_ok limit r' ob && spec_run I limit dflt T r' ops' os'
+      (* Set k; Del k of keys the reference does not hold, no limit: rput conses the entry, rdel filters it out again *)
+      let fresh := (limit <=? 0)%Z && forallb (fun i => match rfind (a + i) r with None => true | Some _ => false end) (seq 0 16) in
+      let r' := if fresh then r else ref_bulk limit dflt T r (XChurn a b c d) in keys_ok hide limit r' ob && spec_run hide I limit dflt T r' ops' os'
   | XO o :: ops', ob :: os' =>
       match o with
       | KSet k v _ =>
           if negb (in_scope I dflt) then true else
-          let r' := rput limit (k, v, T, dflt) r in keys_ok limit r' ob && spec_run I limit dflt T r' ops' os'
+          let r' := rput limit (k, v, T, dflt) r in keys_ok hide limit r' ob && spec_run hide I limit dflt T r' ops' os'
       | KSetX k v e _ =>
           if negb (in_scope I e) then true else
-          let r' := rput limit (k, v, T, e) r in keys_ok limit r' ob && spec_run I limit dflt T r' ops' os'
+          let r' := rput limit (k, v, T, e) r in keys_ok hide limit r' ob && spec_run hide I limit dflt T r' ops' os'
       | KGet k =>
           let r' := rtouch k r in
-          option_eqb Nat.eqb (option_map rval (rfind k r)) (ob_val ob) && keys_ok limit r' ob &&
-          spec_run I limit dflt T r' ops' os'
-      | KDel k => let r' := rdel k r in keys_ok limit r' ob && spec_run I limit dflt T r' ops' os'
+          option_eqb Nat.eqb (option_map rval (rfind k r)) (ob_val ob) && keys_ok hide limit r' ob &&
+          spec_run hide I limit dflt T r' ops' os'
+      | KDel k => let r' := rdel k r in keys_ok hide limit r' ob && spec_run hide I limit dflt T r' ops' os'
       | KTake k f _ =>
           match rfind k r with
           | Some e =>      (* cached: returned without fetching *)
               let r' := rtouch k r in
               option_eqb Nat.eqb (Some (rval e)) (ob_val ob) && negb (ob_err ob) && negb (ob_fetched ob) &&
-              keys_ok limit r' ob && spec_run I limit dflt T r' ops' os'
+              keys_ok hide limit r' ob && spec_run hide I limit dflt T r' ops' os'
           | None =>
               match f with
               | Some v =>  (* fetched once, returned and cached *)
                   if negb (in_scope I dflt) then true else
                   let r' := rput limit (k, v, T, dflt) r in
                   option_eqb Nat.eqb (Some v) (ob_val ob) && negb (ob_err ob) && ob_fetched ob &&
-                  keys_ok limit r' ob && spec_run I limit dflt T r' ops' os'
+                  keys_ok hide limit r' ob && spec_run hide I limit dflt T r' ops' os'
               | None =>    (* fetch failed: error, nothing cached *)
                   option_eqb Nat.eqb None (ob_val ob) && ob_err ob && ob_fetched ob &&
-                  keys_ok limit r ob && spec_run I limit dflt T r ops' os'
+                  keys_ok hide limit r ob && spec_run hide I limit dflt T r ops' os'
               end
           end
       | KTick =>
           let T' := S T in
-          let present e := existsb (Nat.eqb (rkey e)) (ob_keys ob) in
+          (* an entry whose key is not listed (c_hide) counts as present: the size check of keys_ok notices its loss *)
+          let present e := (negb (hide =? 0) && (hide <=? rkey e)) || existsb (Nat.eqb (rkey e)) (ob_keys ob) in
           (* nothing appears; what disappears is in its window; what stays is not overdue *)
           forallb (fun k => existsb (fun e => rkey e =? k) r) (ob_keys ob) &&
           forallb (fun e => if present e then T' - rset e <? hi_ticks I (rexp e)
                             else (lo_ticks I (rexp e) <=? T' - rset e) && (T' - rset e <=? hi_ticks I (rexp e))) r &&
-          let r' := filter present r in keys_ok limit r' ob && spec_run I limit dflt T' r' ops' os'
+          let r' := filter present r in keys_ok hide limit r' ob && spec_run hide I limit dflt T' r' ops' os'
       end
   | _, _ => false
   end.
 
 Definition cache_spec_ok (c : ccase) : bool :=
-  negb (c_hung c) && (0 <? c_ivl c)%Z && spec_run (c_ivl c) (c_limit c) (c_exp c) (c_phase c) [] (c_ops c) (c_obs c).
+  negb (c_hung c) && (0 <? c_ivl c)%Z && spec_run (c_hide c) (c_ivl c) (c_limit c) (c_exp c) (c_phase c) [] (c_ops c) (c_obs c).
 
 (* ---- the jitter on its own: mathx.Unstable.AroundDuration / AroundInt with the cache's deviation ----
    one scripted draw d (an Int63) per result; Float64() = d / 2^63 *)
@@ -178,62 +200,107 @@ Definition jitter_spec_ok (j : jcase) : bool :=
   forallb (in_window (j_base j)) (j_durs j) && forallb (in_window (j_base j)) (j_ints j).
 
 (* ---- the RPC authenticator's use of Take (rpc/internal/auth/auth.go validate) ---- *)
-Inductive aop := ASet (app tok : nat) | ADel (app : nat) | ADown | AUp | ACall (app tok : nat).
-Record acase := mka { a_strict : bool; a_ops : list aop; a_codes : list nat }.
+Inductive aop :=
+| ASet (app tok : nat) | ADel (app : nat) | ADown | AUp | ACall (app tok : nat)
+| AExpire (app : nat)                      (* the cached entry is dropped (what the expiry wheel's callback does) *)
+| ABurst (app : nat) (toks : list nat).    (* overlapping Authenticate calls for one app, one per token *)
+Record acase := mka { a_strict : bool; a_ops : list aop; a_codes : list nat; a_lookups : list nat; a_hung : bool }.
 
 Definition no_timer (ts : unit) (o : C10.Model.op) : unit * C10.Model.fired := (tt, []).
 Definition CODE_OK := 0. Definition CODE_INTERNAL := 13. Definition CODE_UNAUTH := 16.
 
-(* model: validate = cache.Take(app, store.HGet) on the transcribed cache (expiry 5 min, never reached) *)
-Fixpoint auth_model (strict up : bool) (store : list (nat * nat)) (c : cache unit) (ops : list aop) (codes : list nat) : bool :=
+Definition verdict (strict : bool) (expect : option nat) (t : nat) : nat :=
+  match expect with
+  | Some e => if t =? e then CODE_OK else CODE_UNAUTH
+  | None => if strict then CODE_INTERNAL else CODE_OK
+  end.
+
+Fixpoint take_codes {A} (n : nat) (l : list A) : option (list A * list A) :=
+  match n with
+  | O => Some ([], l)
+  | S n' => match l with [] => None | x :: r => option_map (fun p => (x :: fst p, snd p)) (take_codes n' r) end
+  end.
+
+(* model: validate = cache.Take(app, store.HGet) on the transcribed cache (expiry 5 min, never reached by the
+   clock; AExpire is the expiry).  Overlapping callers of Take share ONE execution of the transcribed Take
+   (single-flight: C18), i.e. at most one store lookup, whose outcome every caller judges its own token by. *)
+Fixpoint auth_model (strict up : bool) (store : list (nat * nat)) (c : cache unit) (ops : list aop)
+         (codes lookups : list nat) : bool :=
   match ops with
-  | [] => match codes with [] => true | _ => false end
-  | ASet a t :: r => auth_model strict up (aset Nat.eqb a t store) c r codes
-  | ADel a :: r => auth_model strict up (aremove Nat.eqb a store) c r codes
-  | ADown :: r => auth_model strict false store c r codes
-  | AUp :: r => auth_model strict true store c r codes
+  | [] => match codes, lookups with [], [] => true | _, _ => false end
+  | ASet a t :: r => auth_model strict up (aset Nat.eqb a t store) c r codes lookups
+  | ADel a :: r => auth_model strict up (aremove Nat.eqb a store) c r codes lookups
+  | ADown :: r => auth_model strict false store c r codes lookups
+  | AUp :: r => auth_model strict true store c r codes lookups
+  | AExpire a :: r => auth_model strict up store (cdel no_timer a c) r codes lookups
   | ACall a t :: r =>
       match codes with
       | [] => false
       | code :: codes' =>
           let fetch := if up then alookup Nat.eqb a store else None in
           match ctake no_timer a fetch 300000000000 c with
-          | (c', Some expect, _) => (code =? (if t =? expect then CODE_OK else CODE_UNAUTH)) && auth_model strict up store c' r codes'
-          | (c', None, _) => (code =? (if strict then CODE_INTERNAL else CODE_OK)) && auth_model strict up store c' r codes'
+          | (c', expect, _) => (code =? verdict strict expect t) && auth_model strict up store c' r codes' lookups
           end
+      end
+  | ABurst a toks :: r =>
+      match take_codes (length toks) codes, lookups with
+      | Some (mine, codes'), n :: lookups' =>
+          let fetch := if up then alookup Nat.eqb a store else None in
+          match ctake no_timer a fetch 300000000000 c with
+          | (c', expect, fetched) =>
+              (n =? (if fetched then 1 else 0)) && list_eqb Nat.eqb mine (map (verdict strict expect) toks) &&
+              auth_model strict up store c' r codes' lookups'
+          end
+      | _, _ => false
       end
   end.
 
 Definition auth_model_ok (a : acase) : bool :=
-  auth_model (a_strict a) true [] (cnew 300000000000 0 tt) (a_ops a) (a_codes a).
+  negb (a_hung a) && auth_model (a_strict a) true [] (cnew 300000000000 0 tt) (a_ops a) (a_codes a) (a_lookups a).
 
 (* property: a token is cached only by a successful lookup; a failed lookup (store down or app unknown)
    lets the request pass in non-strict mode but leaves nothing behind, so that once the store answers
-   again the real token is required *)
-Fixpoint auth_spec (strict up : bool) (store cached : list (nat * nat)) (ops : list aop) (codes : list nat) : bool :=
+   again the real token is required; concurrent callers for an uncached app (cold start, or after the entry
+   expired) share ONE store lookup and all of them are judged by its result; cached apps cost no lookup *)
+Fixpoint auth_spec (strict up : bool) (store cached : list (nat * nat)) (ops : list aop) (codes lookups : list nat) : bool :=
   match ops with
-  | [] => match codes with [] => true | _ => false end
-  | ASet a t :: r => auth_spec strict up (aset Nat.eqb a t store) cached r codes
-  | ADel a :: r => auth_spec strict up (aremove Nat.eqb a store) cached r codes
-  | ADown :: r => auth_spec strict false store cached r codes
-  | AUp :: r => auth_spec strict true store cached r codes
+  | [] => match codes, lookups with [], [] => true | _, _ => false end
+  | ASet a t :: r => auth_spec strict up (aset Nat.eqb a t store) cached r codes lookups
+  | ADel a :: r => auth_spec strict up (aremove Nat.eqb a store) cached r codes lookups
+  | ADown :: r => auth_spec strict false store cached r codes lookups
+  | AUp :: r => auth_spec strict true store cached r codes lookups
+  | AExpire a :: r => auth_spec strict up store (aremove Nat.eqb a cached) r codes lookups
   | ACall a t :: r =>
       match codes with
       | [] => false
       | code :: codes' =>
           match alookup Nat.eqb a cached with
-          | Some expect => (code =? (if t =? expect then CODE_OK else CODE_UNAUTH)) && auth_spec strict up store cached r codes'
+          | Some expect => (code =? verdict strict (Some expect) t) && auth_spec strict up store cached r codes' lookups
           | None =>
-              match (if up then alookup Nat.eqb a store else None) with
-              | Some expect => (code =? (if t =? expect then CODE_OK else CODE_UNAUTH)) &&
-                               auth_spec strict up store (aset Nat.eqb a expect cached) r codes'
-              | None => (code =? (if strict then CODE_INTERNAL else CODE_OK)) && auth_spec strict up store cached r codes'
-              end
+              let got := if up then alookup Nat.eqb a store else None in
+              (code =? verdict strict got t) &&
+              auth_spec strict up store (match got with Some e => aset Nat.eqb a e cached | None => cached end) r codes' lookups
           end
+      end
+  | ABurst a toks :: r =>
+      match take_codes (length toks) codes, lookups with
+      | Some (mine, codes'), n :: lookups' =>
+          match alookup Nat.eqb a cached with
+          | Some expect =>
+              (n =? 0) && list_eqb Nat.eqb mine (map (verdict strict (Some expect)) toks) &&
+              auth_spec strict up store cached r codes' lookups'
+          | None =>
+              if up then
+                let got := alookup Nat.eqb a store in
+                (n =? 1) && list_eqb Nat.eqb mine (map (verdict strict got) toks) &&
+                auth_spec strict up store (match got with Some e => aset Nat.eqb a e cached | None => cached end) r codes' lookups'
+              else true      (* lookups cannot be counted while the store is down: out of this clause *)
+          end
+      | _, _ => false
       end
   end.
 
-Definition auth_spec_ok (a : acase) : bool := auth_spec (a_strict a) true [] [] (a_ops a) (a_codes a).
+Definition auth_spec_ok (a : acase) : bool := negb (a_hung a) && auth_spec (a_strict a) true [] [] (a_ops a) (a_codes a) (a_lookups a).
 
 Inductive case := CC (c : ccase) | CJ (j : jcase) | CA (a : acase).
 Definition model_ok (c : case) : bool :=
